@@ -53,9 +53,13 @@ def complete_dict(module_context, code_lines, leaf, position, string, fuzzy):
 
 
 def _completions_for_dicts(inference_state, dicts, literal_string, cut_end_quote, fuzzy):
+    seen = set()
     for dict_key in sorted(_get_python_keys(dicts), key=lambda x: repr(x)):
         dict_key_str = _create_repr_string(literal_string, dict_key)
-        if dict_key_str.startswith(literal_string):
+        if dict_key_str.startswith(literal_string) and dict_key_str not in seen:
+            # The same key can be there multiple times, e.g. if multiple
+            # dicts are inferred.
+            seen.add(dict_key_str)
             name = StringName(inference_state, dict_key_str[:-len(cut_end_quote) or None])
             yield Completion(
                 inference_state,
